@@ -8,6 +8,10 @@ pub mod oracle;
 pub mod util;
 
 #[cfg(kani)]
+pub mod c08;
+#[cfg(kani)]
+pub mod c11;
+#[cfg(kani)]
 pub mod c12;
 #[cfg(kani)]
 pub mod c14;
